@@ -48,7 +48,11 @@ void generate(sim::Rng &r, uint64_t seed, const std::string &tier, sim::Plan &p)
     unsigned x = (unsigned)r.below(100);
     long target = (long)r.below(NEV);
     if (inside && r.chance(400)) target = ctx < NEV ? ctx : target;     // act on the running timer itself
-    if (x < 18) { op.kind = "init"; op.a = {ctx, when, target, ivs[r.below(11)], r.chance(350) ? 1 : 0}; }
+    if (x < 18) {
+      long iv = ivs[r.below(11)];
+      if (r.chance(80)) iv = r.pick((const long[]){2147483647L, 2147483648L, 2592000000L, 3888000000L, 4294967301L, 10000000000L});   // 24.8 days and more: the timer must simply not fire during the run
+      op.kind = "init"; op.a = {ctx, when, target, iv, r.chance(350) ? 1 : 0};
+    }
     else if (x < 40) { op.kind = "enable"; op.a = {ctx, when, target, 0, 0}; }
     else if (x < 58) { op.kind = "disable"; op.a = {ctx, when, target, 0, 0}; }
     else if (x < 68) { op.kind = "destroy"; op.a = {ctx, when, target, 0, 0}; }
@@ -115,7 +119,8 @@ void apply(const sim::Op &op, int running_slot) {
   M &m = W.m[t];
   if (m.pending_delete) return;
   if (k == "init") {
-    long d = std::max(1L, std::min(1000L, op.arg(3)));
+    long d = std::max(1L, op.arg(3) > 1000000L ? std::min(20000000000L, op.arg(3)) : std::min(1000L, op.arg(3)));      // short intervals, or intervals of weeks and months (beyond 2^31 and 2^32 ms)
+    if (d > 1000000L) sim::probe("far_timers");
     if (!m.exists) {
       m = M();
       m.ev = W.loop->newTimerEvent("c02");
